@@ -86,6 +86,11 @@ CHECKS = {
          "All 8/16-bit integers in decimal and #H/#Q/#B; boundary-directed 32/64-bit integers; all 2^32 f32 bit patterns (thorough; quick: every exponent x ~1050 mantissa patterns + all top-half patterns) and ~270k structured f64 patterns, bit-for-bit; NaN/infinity sentinels; bool; every string up to length 4/5 over quote/separator bytes; blocks of every length 0..120 and around 1000; &str, character, expression data; lists of 0..4 elements; derived-enum variants; every standard error and custom errors with and without extended text.",
          "Trusted: refmodel/respdec.rs (~250 lines from 488.2 8.7, self-checked), core::str::parse for decoding floats. Float text is judged against the NRf grammar (not the stricter talker form, see DESIGN 3.3); finite floats whose text equals a sentinel are excluded.",
          "DESIGN.md section 5 (C09)"),
+ "C19": ("exploration",
+         "exhaustive enumeration of all list bodies up to length k over the list alphabet plus grammar derivations and single-point corruptions, against reference parsers of SCPI-99 8.3.2/8.3.3",
+         "Every string up to length 6 (quick) / 8 (thorough) over `12-+!:,.E'a SP` as numeric-list and as channel-list body, ~900 grammar derivations (signs, fractions, exponents, 1-3 dimensions, ranges, path names with embedded separators) and ~60k single-point corruptions. The iterators must yield exactly the entries the text denotes, stop with an error exactly at a listed fault, and every ChannelSpec must report its dimension, per-dimension values and all six tuple conversions as the numbers of the text. Short bodies are also observed through Parameters::next_data in a real message.",
+         "Trusted: refmodel/lists.rs (~300 lines, self-checked on the repo's own csv expectations). Text that leaves the pinned grammar (white space, trailing comma, non-integer channel numbers, missing separator between channel entries) gives no verdict from that point; an entry directly adjacent to a fault may or may not have been yielded.",
+         "DESIGN.md section 5 (C19)"),
 }
 
 NOT_YET = "check not built yet (planned: DESIGN.md section 5 describes the bounded exhaustive exploration that will decide it)"
